@@ -22,7 +22,11 @@ pub mod string;
 // todo: maybe Identifier instead of str?
 pub(crate) type GlobalFunctionMap = HashMap<&'static str, Builtin>;
 
+#[cfg(not(grass_verif))]
 static FUNCTION_COUNT: AtomicUsize = AtomicUsize::new(0);
+#[cfg(grass_verif)]
+static FUNCTION_COUNT: crate::verif::SchedAtomicUsize =
+    crate::verif::SchedAtomicUsize::new(0, "function_count");
 
 /// A function implemented in rust that is accessible from within Sass
 ///
